@@ -11,15 +11,19 @@ def dom_text(dom, trapz):
 
 def gen_domain(rng, nd):
     kind = rng.choice(["uniform", "nonuniform", "step", "step_rect"])
+    # physical unit of the domain axis: nm, or metres / km-like scales (exact powers of two)
+    unit = 2.0 ** int(rng.choice([0, 0, 0, -10, -23, -30, -40, 8]))
     if kind == "uniform":
         start = float(dyadic(rng, 0, 400, 2))
         step = float(dyadic(rng, 0.25, 8, 2))
-        return kind, start + step * np.arange(nd), True
+        return kind, (start + step * np.arange(nd)) * unit, True
     if kind == "nonuniform":
         steps = dyadic(rng, 0.125, 8, 3, size=nd - 1)
+        if rng.integers(2):   # strongly non-uniform: fine at one end, coarse at the other
+            steps = np.sort(steps) * np.where(np.arange(nd - 1) < (nd - 1) // 2, 0.125, 4.0)
         start = float(dyadic(rng, -4, 300, 2))
-        return kind, np.concatenate([[start], start + np.cumsum(steps)]), bool(rng.integers(2))
-    dx = float(dyadic(rng, 0.125, 8, 3))
+        return kind, np.concatenate([[start], start + np.cumsum(steps)]) * unit, bool(rng.integers(2))
+    dx = float(dyadic(rng, 0.125, 8, 3)) * unit
     return kind, dx, kind == "step"
 
 
@@ -174,6 +178,43 @@ def run(R):
         R.case(c, nontriv, sample=(nontriv is not None))
         if bad:
             R.failB(dict(c, impl=out), bad, "C01:%s:%s:entry-mismatch" % (c["shape"], c["domain_kind"]))
+
+    # B3: large calls (many signals): every sampled row must equal the integral of that signal alone
+    for bi, tot in enumerate([2 ** 21, int(2 ** 22.5), int(2 ** 23.4)] if R.tier == "quick" else
+                             [2 ** 20, 2 ** 21, int(2 ** 22.5), int(2 ** 23.4), 2 ** 24 + 12345]):
+        k = "big%d" % bi
+        if not R.want(k):
+            continue
+        rng = R.rng(3, bi)
+        nf = int(rng.integers(2, 5)); nd = int(rng.choice([101, 401, 31]))
+        ns = tot // (nf * nd) + 1
+        kind, dom, trapz = gen_domain(rng, nd)
+        filt = dyadic(rng, 0, 2, 4, size=(nf, nd))
+        sig = dyadic(rng, 0, 4, 4, size=(ns, nd))
+        d_ = dom if not np.isscalar(dom) else float(dom)
+        c = dict(k=k, shape="big", n_signals=ns, n_filters=nf, nd=nd, domain_kind=kind, trapz=bool(trapz))
+        R.count("shape:big")
+        st, out = call(dreye.calculate_capture, filt, sig, domain=d_, trapz=trapz)
+        rows = sorted(set([0, 1, ns - 1, ns - 2, ns // 2] + rng.integers(0, ns, size=25).tolist()))
+        R.case(c, ("big", ns, nf, nd, kind), sample=True)
+        if st != "ok":
+            R.failB(dict(c, impl_error=out), "implementation raised %s on a large input: %s" % (st, out), "C01:big:raises:%s" % st)
+            continue
+        out = np.asarray(out)
+        if out.shape != (ns, nf):
+            R.failB(c, "shape %s, expected %s" % (out.shape, (ns, nf)), "C01:big:shape")
+            continue
+        drv = R.driver.__class__()
+        drv.ask("b", "capture", dom_text(dom, trapz), ms(filt), ms(sig[rows]))
+        drv.run()
+        m = drv.get("b").mat()
+        for ri, i in enumerate(rows):
+            for j in range(nf):
+                if not close(out[i, j], m[ri][j], scale_of(dom, trapz or not np.isscalar(dom), filt[j], sig[i]), RT):
+                    R.failB(dict(c, row=i, filter=j, impl=float(out[i, j]), model=rs(m[ri][j]), filters=filt, signal=sig[i], dom=dom),
+                            "in a call with %d signals, entry (%d,%d)=%r but the integral of that signal x filter is %s"
+                            % (ns, i, j, float(out[i, j]), rs(m[ri][j])), "C01:big:entry-mismatch")
+                    break
 
     # B2: linearity and scalar-step/explicit-domain agreement on the implementation itself
     m2 = 40 if R.tier == "quick" else 400
